@@ -7,11 +7,12 @@ import pipe
 
 ID = "C03"
 MODULE = "C03"
-IMPORTS = "Bytes RustInt Range CacheControl Cache CacheProofs Fixture CacheX CacheXProofs CacheXWitness"
+IMPORTS = "Bytes RustInt Range CacheControl Cache CacheProofs Fixture CacheX CacheXProofs CacheXWitness CacheKey CacheKeyProofs"
 PROFILES = ("dev",)
 MAX_NOT_EXECUTED = 0
 _PINS = json.load(open(os.path.join(os.path.dirname(os.path.abspath(__file__)), "pins", "C03.json")))
-THEOREMS = [(n, _PINS[n]) for n in ("cache_transparent", "cache_hit_same_class", "cache_transparent_from_empty",
+THEOREMS = [(n, _PINS[n]) for n in ("cache_transparent", "cache_hit_same_class", "cache_transparent_from_empty", "key_injective",
+                                    "cache_transparent_uri", "cache_hit_same_uri", "query_start_needed",
                                     "override_poisons_refuted", "stream_vary_refuted", "qm_variant_refuted")]
 RULE = ("histories of requests/clears/waits against kvarn::handle_cache in process (harness/src/c04x.rs): (a) host with response cache vs. the Coq cache "
         "model Model/CacheX.v (component pipex.run; correspondence: status, vary / x-h / last-modified presence, decoded body, identity body, stream, "
@@ -24,13 +25,20 @@ RULE = ("histories of requests/clears/waits against kvarn::handle_cache in proce
         "methods {GET, HEAD, POST, OPTIONS, PUT} x Accept-Encoding / Range / Origin / vary-relevant headers x all assignments of {None, QueryMatters, "
         "Full} to the handlers (QueryMatters + vary included) x vary rules x switch handlers whose variants differ in status / preference / "
         "cache-control / stream x status filter {default, cache-all} x override Prime (custom /./int, default CORS denial) x waits across a 2 s "
-        "lifetime, with/without the default extensions (uri expansion of '/', 'dir/', 'name.'; clears of the unexpanded names). "
+        "lifetime, with/without the default extensions (uri expansion of '/', 'dir/', 'name.'; clears of the unexpanded names). Plus the family "
+        "'split': URIs whose path + query concatenations (the string of comprash::PathQuery) coincide although path / query differ — /a?b vs /ab, "
+        "/x/y?z=1 vs /x/yz=1, /a?/b vs /a/b, /a?bc vs /ab?c, /?a vs /a, /q?x=1 vs /qx=1, /ab? vs /a?b —, empty vs absent query (/a? vs /a) and an "
+        "encoded '?' (/a?b vs /a%3Fb), in both orders, against the assignments of {None, QueryMatters, Full} to the handlers of the two paths, and "
+        "random histories (requests, clears) over these URIs. "
         "distinct_nontrivial = distinct (history, model outcome) pairs containing at least one cache hit")
 ASSUMPTIONS = [
     "handlers honour their cache contract (theorem hypotheses: response is a function of method class, path of the URI that selects the handler "
     "(the internal route when a Prime overrode the URI), (query if QueryMatters), vary tuple; error responses are not cacheable); fixture handlers "
     "satisfy it by construction. The earlier extra hypothesis 'query-matters-ness is uniform per path' is gone: it was needed only because of the "
     "defect witnessed by qm_variant_refuted, now repaired",
+    "'query' in the contract is the NON-EMPTY query (Model/CacheKey.v eff_query): comprash::PathQuery stores path and query without the '?', so "
+    "'/a?' and '/a' are one key by design (PathQuery::query's documentation and kvarn's own tests path_query_empty_query_1/4); a QueryMatters "
+    "handler must answer them alike (the fixture's echo handler does). Theorem key_injective states exactly this equivalence",
     "If-Modified-Since excluded here (C04 covers it): a cache-less server never answers 304",
     "moka is modelled as a finite map with read-your-writes; capacity (1024 entries) is never reached in a run",
     "sequential histories (one request at a time); the race between expiry and handle_vary_missing's second lookup is not modelled (C05)",
@@ -39,14 +47,18 @@ ASSUMPTIONS = [
     "timed histories: a scenario in which a request started or ended more than 450 ms late is run again and then reported as not executed",
 ]
 TRUSTED = ["modelled (Model/CacheX.v): src/lib.rs handle_cache + handle_cache_helpers (get_response's key, get_cache, maybe_cache, handle_vary_missing), "
-           "src/comprash.rs UriKey/PathQuery/MokaCache::{get_cache_item,insert,insert_cache_item}/ServerCachePreference::cache, src/host.rs "
+           "src/comprash.rs UriKey/PathQuery (From<&Uri>, derived PartialEq/Eq/Hash = Model/Cache.v path_query/key_eqb)/MokaCache::{get_cache_item,insert,insert_cache_item}/ServerCachePreference::cache, src/host.rs "
            "clear_page/status filter, extensions.rs uri_redirect prime, the default CORS denial route; handlers/vary rules/override Prime are the "
            "fixture menu (harness/src/c00pipe.rs + c04x.rs = Model/Fixture.v + CacheX.v)"]
 LEVEL_TEXT = ("Coq theorem cache_transparent over the full cache model (streams, body sizes, the host's status filter, override URIs of Prime extensions, "
               "vary variants with admission): for every history of requests, clears and waits, under the handler contract, every reply of the caching "
               "server equals the reply of the cache-less server (status, headers, body sent with its size, identity body, stream), by an inductive "
               "invariant on the cache (each stored variant equals recomputation for every request that can select it); plus cache_hit_same_class (an "
-              "entry is only served to a request of the same path / query / method class / variant). Two defects of the code before its repair are "
+              "entry is only served to a request of the same path / query / method class / variant); key_injective (what the cache compares — the derived "
+              "PartialEq/Hash of UriKey and PathQuery — holds of the PathQuery keys of two URIs exactly when path and non-empty query are equal, of "
+              "the Path keys exactly when the paths are equal, never across the two kinds: '/a'+'b' is not '/ab'), with which cache_transparent_uri "
+              "and cache_hit_same_uri restate the two theorems with the handler contract and the conclusion in terms of the URI's path and query "
+              "instead of the key; query_start_needed (witness: compared on the concatenated string alone, /a?b and /ab are one key). Three defects of the code before its repair are "
               "proved as witnesses on the faithful old model (override_poisons_refuted: an internal route's answer stored under the page's key; "
               "qm_variant_refuted: a QueryMatters variant joined a path-keyed entry and was served for every query; stream_vary_refuted). Tied to the repo worktree by a differential run of the real kvarn::handle_cache against the extracted model on "
               "generated histories, for hosts with and without the response cache, and by the real-vs-real comparison of the two hosts.")
@@ -142,7 +154,65 @@ def history(rng, n, timed=False, **kw):
     return ops
 
 
-def mk_cases(rng, hs, ops, default_ext, kind, xhs=(), vary=(), pair=True, run=True, **cfgkw):
+# URIs whose path + query concatenations (the `string` of comprash::PathQuery, which has no '?') coincide although path and query differ:
+# only the position of the boundary (`query_start`) keeps their keys apart.  Also: empty query / no query (one key, by PathQuery's design —
+# the echo handler prints them alike) and an encoded '?' in the path (a different path).
+SPLITS = [(b"/a?b", b"/ab"), (b"/x/y?z=1", b"/x/yz=1"), (b"/a?/b", b"/a/b"), (b"/a?bc", b"/ab?c"), (b"/?a", b"/a"), (b"/q?x=1", b"/qx=1"),
+          (b"/a?", b"/a"), (b"/a?b", b"/a%3Fb"), (b"/ab?", b"/a?b")]
+SPLIT_URIS = sorted({u for pr in SPLITS for u in pr} | {b"/a?b=", b"/", b"/x/y", b"/x/y?z=", b"/x/yz=1?", b"/a/b?", b"/a??", b"/a%3F"})
+SPLIT_PATHS = sorted({u.split(b"?")[0] for u in SPLIT_URIS})
+
+
+def split_handlers(rng, pref_of):
+    """one handler per path; QueryMatters handlers echo path?query (their contract), the others are static / echo the method class"""
+    hs = []
+    for i, p in enumerate(SPLIT_PATHS):
+        sp = pref_of(p)
+        hs.append(pipe.H(p, kind=1 if sp == 1 else rng.choice([0, 4]), body=b"e:" if sp == 1 else b"static:" + p + b":", spref=sp,
+                         headers=[(b"x-h", b"s%d" % i)], cpref=rng.choice([0, 3])))
+    return hs
+
+
+def split_directed(rng, tier):
+    """both orders of every ambiguous pair, against the assignments of {None, QueryMatters, Full} to the two handlers"""
+    cases = []
+    for u1, u2 in SPLITS:
+        p1, p2 = u1.split(b"?")[0], u2.split(b"?")[0]
+        combos = [(a, b) for a in (1, 2, 0) for b in (1, 2, 0)]
+        if tier == "quick":
+            combos = [(1, 1), rng.choice(combos[1:])]
+        for first, second in ((u1, u2), (u2, u1)):
+            for a, b in combos:
+                other = rng.choice([0, 1, 2])
+                hs = split_handlers(rng, lambda p: a if p == p1 else b if p == p2 else other)
+                ops = [pipe.req(first), pipe.req(second), pipe.req(first, method=rng.choice([b"GET", b"HEAD"])), pipe.req(second)]
+                cases += mk_cases(rng, hs, ops, False, "split", nocache_run=(tier != "quick"))
+    return cases
+
+
+def split_random(rng, n):
+    cases = []
+    for i in range(n):
+        qmp = rng.choice([0.4, 0.7, 1.0])
+        prefs = {p: (1 if rng.random() < qmp else rng.choice([0, 2])) for p in SPLIT_PATHS}
+        hs = split_handlers(rng, lambda p: prefs[p])
+        pr = rng.choice(SPLITS)
+        focus = list(pr) + [rng.choice(SPLIT_URIS)]
+        ops = []
+        for j in range(rng.randrange(3, 12)):
+            r = rng.random()
+            u = rng.choice(focus) if rng.random() < 0.75 else rng.choice(SPLIT_URIS)
+            if r < 0.08:
+                ops.append(pipe.clear_page(u))
+            elif r < 0.10:
+                ops.append(pipe.clear_all())
+            else:
+                ops.append(pipe.req(u, method=rng.choice([b"GET", b"GET", b"GET", b"GET", b"HEAD", b"POST"]), addr=rng.randrange(1, 4)))
+        cases += mk_cases(rng, hs, ops, rng.random() < 0.3, "split/random", pair=(i % 2 == 0), nocache_run=(i % 2 == 1))
+    return cases
+
+
+def mk_cases(rng, hs, ops, default_ext, kind, xhs=(), vary=(), pair=True, run=True, nocache_run=True, **cfgkw):
     out = []
     kw = dict(default_ext=default_ext, handlers=hs, report=[xb(r) for r in REPORT], disable_ims=False, **cfgkw)
     if xhs:
@@ -150,7 +220,7 @@ def mk_cases(rng, hs, ops, default_ext, kind, xhs=(), vary=(), pair=True, run=Tr
     if vary:
         kw["vary"] = list(vary)
     if run:
-        for cache in (True, False):
+        for cache in ((True, False) if nocache_run else (True,)):
             c = pipe.cfg(cache=cache, **kw)
             out.append(Case("pipex.run", pipe.scenario(c, ops), "pipex.run_nocache" if cache else None,
                             {"kind": kind + ("/cache" if cache else "/nocache")}))
@@ -198,6 +268,9 @@ def generate(rng, tier):
     Ra, Rb = [(b"x-v", b"a")], [(b"x-v", b"b")]
     cases += mk_cases(rng, [], [pipe.req(b"/v?x=1", headers=Ra), pipe.req(b"/v?x=1", headers=Rb), pipe.req(b"/v?x=2", headers=Rb), pipe.req(b"/v?x=2", headers=Ra),
                                 pipe.req(b"/v?x=1", headers=Rb)], False, "corpus/qm-variant", xhs=[xh], vary=[pipe.vary_rule(b"/v", [(b"x-v", 0, b"a")])])
+    # URIs whose PathQuery strings coincide but split differently (seeded/C03-3), both orders, handlers QueryMatters / Full / None
+    cases += split_directed(rng, tier)
+    cases += split_random(rng, 50 if tier == "quick" else 1500)
     nhist = 230 if tier == "quick" else 5000
     for i in range(nhist):
         prefs = [rng.choice([0, 1, 2]) for _ in range(3)]
